@@ -55,6 +55,10 @@ def _contexts():
         "after-block-sibling": lambda s: g(div(div("q"), s)),
         "nested-inline-in-block": lambda s: g(div(span(s, "t"), div())),
         "deep": lambda s: div(div(div(span("y"), s))).get_html_string(2),
+        "inline-in-inline": lambda s: g(span(span(s))),
+        "inline-in-inline-multi": lambda s: g(span(span(s, "t"), "!")),
+        "inline-in-inline-in-block": lambda s: g(div(span(span("a", s)), "z")),
+        "custom-eol": lambda s: div("q", span(span(s))).get_html_string(1, "\r\n"),
     }
 
 
@@ -276,6 +280,73 @@ def fn_lookalike(s):
     return (True, None, viols, len(CORE) + 1 + len(_frames("ways")))
 
 
+def ordinary_tag_names():
+    """every element of the catalogue except the two raw-text ones, plus a few extra names."""
+    from htmltools import svg, tags
+    names = []
+    for mod in (tags, svg):
+        for n, f in vars(mod).items():
+            if callable(f) and getattr(f, "__module__", "") == mod.__name__ and not n.startswith("_"):
+                if n not in ("script", "style") and n not in names:
+                    names.append(n)
+    return names + ["textarea-x", "my-el", "SCRIPTX", "xmp", "plaintext", "listing", "noembed", "noframes"]
+
+
+TAG_PROBES = ["<&>", "</textarea><script>x</script>", "a & b", "&amp;", "x > y", "<!--"]
+
+
+def fn_tagname(case):
+    from htmltools import Tag, svg, tags
+    name, probe = case
+    viols = []
+    f = getattr(tags, name, None) or getattr(svg, name, None)
+    mk = (lambda *a: f(*a)) if f is not None else (lambda *a: Tag(name, *a))
+    for how, build_ in (("single", lambda s: mk(s)), ("multi", lambda s: mk("k", s, Tag("i"))),
+                        ("appended", lambda s: _app(mk(), s)), ("flipped-ws", lambda s: _flip(mk("k", s)))):
+        ph = build_(PH).get_html_string()
+        if ph.count(PH) != 1:
+            continue
+        pre, suf = ph.split(PH)
+        out = build_(probe).get_html_string()
+        E = out[len(pre):len(out) - len(suf)] if out.startswith(pre) and out.endswith(suf) else None
+        why = "surrounding markup changed" if E is None else valid_escape(E, probe, TEXT_MUST)
+        if why:
+            viols.append((f"tag={name}:{how}", f"text child {probe!r} of <{name}> ({how}) emitted wrongly: {why}",
+                          {"observed": out}))
+    return (True, None, viols, 8)
+
+
+def _app(t, s):
+    t.append(s)
+    return t
+
+
+def _flip(t):
+    t.add_ws = not t.add_ws
+    return t
+
+
+def fn_long(case):
+    """history: a long string rendered as HTML() first, then as plain text (must still be escaped)."""
+    from htmltools import HTML, Tag, TagList
+    unit, n = case
+    s = (unit * (n // len(unit) + 1))[:n]
+    viols = []
+    Tag("p", HTML(s)).get_html_string()
+    Tag("span", "k", HTML(s), _add_ws=False).get_html_string()
+    for name, f, pre, suf in (("only", lambda: Tag("div", s).get_html_string(), "<div>", "</div>"),
+                              ("multi", lambda: TagList(Tag("span", "k", _add_ws=False), s).get_html_string(),
+                               "<span>k</span>", ""),
+                              ("appended", lambda: _app(Tag("span", _add_ws=False), s).get_html_string(), "<span>", "</span>")):
+        out = f()
+        E = out[len(pre):len(out) - len(suf)] if out.startswith(pre) and out.endswith(suf) else None
+        why = "surrounding markup changed" if E is None else valid_escape(E, s, TEXT_MUST)
+        if why:
+            viols.append((f"long-after-html:{name}", f"{n}-character text rendered after the same string as HTML(): {why}",
+                          {"observed": out[:200]}))
+    return (True, None, viols, 5)
+
+
 NUMBERS = [["N", 0], ["N", 7], ["N", -1], ["N", 2.5], ["NS", "1e21"], ["NS", "10**30"],
            ["NS", "nan"], ["NS", "inf"], ["NS", "True"], ["NS", "intenum"], ["NS", "floatsub"],
            ["NS", "-0.0"], ["NS", "intflag"]]
@@ -319,6 +390,13 @@ def plan(tier):
         dict(kind="space", name="ways-of-adding", space=Seq(Const(SIGMA), 0, 3 if tier == "quick" else 4),
              fn=fn_way, execs=nways + 1,
              note=f"{nways} ways of adding a child x all strings of length <= 3/4"),
+        dict(kind="space", name="every-ordinary-tag-name", fn=fn_tagname,
+             space=Prod(Const(ordinary_tag_names()), Const(TAG_PROBES)),
+             note="every catalogue element except script/style (+ 8 extra names) x 6 probes x single / multi / "
+                  "appended / flipped-ws child"),
+        dict(kind="space", name="long-strings-after-html", fn=fn_long,
+             space=Prod(Const(["a&b<c>d ", "<i>&amp;</i>"]), Const([1, 31, 32, 63, 64, 65, 127, 128, 129, 255, 256, 257, 1000, 4096, 70000])),
+             note="1..70000-character strings rendered as HTML() first, then as plain text"),
         dict(kind="space", name="reference-lookalikes", space=Const(lookalikes()), fn=fn_lookalike,
              note="every HTML5 named reference (with ';', 400 without), numeric references, double-escape "
                   "look-alikes x core contexts x ways of adding"),
